@@ -335,6 +335,27 @@ def standin(tier, seed):
                     if got != want:
                         fail("with default_host=%r the request is dispatched to %r, the first rule matching the whole host (or, failing that, the whole default host) is %r" % (default_host, got, want),
                              host_rules=[DH_RULES[k][0] for k in picked], host=host, x_real_ip=xreal, path=path)
+    # ---- (a3) the same host pattern registered more than once: every add_handlers call is its own rule list, consulted in the order the calls were made
+    for pats in itertools.product([r"api\.example\.com", r".*\.example\.com", r"www\.example\.com"], repeat=3):
+        for paths in ([r"/a", r"/.*", r"/.*"], [r"/a", r"/b", r"/.*"], [r"/.*", r"/a", r"/b"], [r"/a", r"/a", r"/a"]):
+            handlers = {}
+            app = W.Application([W.url(r"/base", handlers.setdefault("base", mk_handler("base")))])
+            ref = []
+            for k, (hp, pp) in enumerate(zip(pats, paths)):
+                tag = "call%d" % k
+                app.add_handlers(hp, [W.url(pp, handlers.setdefault(tag, mk_handler(tag)))])
+                ref.append((hp, [(pp, tag)]))
+            ref.append((None, [(r"/base", "base")]))
+            for host in ("api.example.com", "www.example.com", "other.org"):
+                for path in ("/a", "/b", "/other", "/base"):
+                    evals += 1
+                    d = app.find_handler(fake_request(host, path))
+                    got = getattr(d.handler_class, "tag", None) if d.handler_class is not W.ErrorHandler else None
+                    want = ref_route(ref, host, path)
+                    want = want[0] if want else None
+                    nontriv.add(("repeated-host-pattern", pats, tuple(paths), host, path))
+                    if got != want:
+                        fail("dispatched to %r, the first matching rule in registration order is %r" % (got, want), add_handlers_calls=list(zip(pats, paths)), host=host, path=path)
     # ---- (b) nested routers and default handler
     for _ in range(20 if tier == "quick" else 200):
         inner_p = [(rng.choice(PATS), "i%d" % i) for i in range(rng.randint(1, 2))]
@@ -393,6 +414,19 @@ def standin(tier, seed):
                 if slash_in_nonslash_group:
                     f["known"] = "F-29"
                 failures.append(f) if (len(failures) < 6 or "known" not in f) else None
+    # patterns that are not reversible (a back-reference or an octal escape is not literal text): reverse_url refuses them - or, if it answers, the answer routes back
+    for pat, args in [(r"/pair/(\w+)/\1", ("ab",)), (r"/(\d{4})/(\d\d)/archive-\1-\2\.html", ("2024", "05")), (r"/x\0y/(\d+)", ("5",)), (r"/w/(\w+)\b", ("q",))]:
+        evals += 1
+        app = W.Application([W.url(pat, mk_handler("rev"), name="r"), W.url(r"/.*", mk_handler("catchall"))])
+        nontriv.add(("not-reversible", pat))
+        try:
+            u = app.reverse_url("r", *args)
+        except Exception:
+            continue
+        d = app.find_handler(fake_request("h", u))
+        got = (getattr(d.handler_class, "tag", None), [x.decode("utf8") for x in d.path_args])
+        if got != ("rev", list(args)):
+            fail("reverse_url%r = %r for a pattern with a back-reference / escape routes to %r, not back to the rule" % (args, u, got), pattern=pat)
     samples.append({"reverse": {"pattern": r"/u/([^/]+)", "args": "a b", "url": W.Application([W.url(r"/u/([^/]+)", mk_handler("s"), name="r")]).reverse_url("r", "a b")}})
     unknown = [f for f in failures if "known" not in f]
     known = [f for f in failures if "known" in f]
